@@ -71,7 +71,7 @@ func sum(xs []int) int {
 }
 
 // ---------------------------------------------------------------------------------------------- area wf
-// wf <old> <umask> <mode> <pieces> <fault>   fault: none | cb:<j> | rename:EISDIR (old must be "dir")
+// wf <old> <umask> <mode> <pieces> <fault>   fault: none | cb:<j> | rename:DIR (old must be "dir")
 // -> res=<code> dst=<state> extra=<n> mid=<i:size,…|-> reader=<ok|BAD:…>
 type wfArea struct{}
 
@@ -84,7 +84,7 @@ func (wfArea) Gen(r *hx.Rng, n int, _ string, emit func(string)) {
 		case 0, 1:
 			fault = "cb:" + strconv.Itoa(r.Intn(len(parsePieces(pieces))+1))
 		case 2:
-			old, fault = "dir", "rename:EISDIR"
+			old, fault = "dir", "rename:DIR"
 		}
 		emit("wf " + old + " " + hx.Pick(r, umasks) + " " + hx.Pick(r, modes) + " " + pieces + " " + fault)
 	}
@@ -140,7 +140,11 @@ func (wfArea) Run(line string) string {
 	} else if len(mid) > 0 {
 		m = strings.Join(mid, ",")
 	}
-	return fmt.Sprintf("res=%s dst=%s extra=%d mid=%s reader=%s", resCode(err), fileState(dst), len(extras(dir)), m, rs)
+	res := resCode(err)
+	if fault == "rename:DIR" && (res == "errno:EISDIR" || res == "errno:EEXIST" || res == "errno:ENOTEMPTY") {
+		res = "errno:DIR" // which errno rename(file, directory) gives depends on the file system
+	}
+	return fmt.Sprintf("res=%s dst=%s extra=%d mid=%s reader=%s", res, fileState(dst), len(extras(dir)), m, rs)
 }
 
 // ---------------------------------------------------------------------------------------------- area api
@@ -151,11 +155,16 @@ type apiArea struct {
 	f        *safe.File
 	off      int
 	umask    uint32
+	oldDir   bool
 }
 
 func (*apiArea) Gen(r *hx.Rng, n int, _ string, emit func(string)) {
 	for i := 0; i < n; {
-		emit("reset " + genOld(r) + " " + hx.Pick(r, umasks))
+		old := genOld(r)
+		if r.Intn(8) == 0 {
+			old = "dir" // Commit's rename fails
+		}
+		emit("reset " + old + " " + hx.Pick(r, umasks))
 		emit("create " + hx.Pick(r, modes))
 		i += 2
 		b := bufSize()
@@ -200,6 +209,7 @@ func (a *apiArea) Run(line string) string {
 			os.RemoveAll(a.dir)
 		}
 		a.dir, a.dst = setup(parseOld(f[1]))
+		a.oldDir = f[1] == "dir"
 		a.umask = octal(f[2])
 		a.off = 0
 		return "reset"
@@ -237,7 +247,11 @@ func (a *apiArea) Run(line string) string {
 		if a.f == nil {
 			return "bad-op"
 		}
-		return a.obs(resCode(a.f.Commit()))
+		res := resCode(a.f.Commit())
+		if a.oldDir && (res == "errno:EISDIR" || res == "errno:EEXIST" || res == "errno:ENOTEMPTY") {
+			res = "errno:DIR"
+		}
+		return a.obs(res)
 	case "close":
 		if a.f == nil {
 			return "bad-op"
